@@ -69,6 +69,45 @@ def enum_stmt(n, in_loop, in_func, depth):
                     yield ["try", 0, body, [[0, hb]], None, None]
 
 
+def directed_jump_skeletons():
+    """WHERE a jump sits relative to the loops around it: outer loop (for/while, with/without an else that leaves the function) whose body holds an inner
+    construct with a break/continue/return/raise in each of its slots — in particular the `else` of an inner loop (the jump then belongs to the OUTER loop),
+    handlers, `finally`, `with` and `match` bodies — followed by a statement after the outer loop; also the same one level deeper."""
+    S = lambda: ["s", 0]
+    out = []
+    for jump in ("brk", "cont", "ret", "raise"):
+        J = lambda: [jump, 0]
+        inners = {
+            "loop_else": lambda k: [k, 0, [S()], [J()]],
+            "loop_body_and_else": lambda k: [k, 0, [["if", 0, [["brk", 0]], None]], [J()]],
+            "loop_else_if": lambda k: [k, 0, [S()], [["if", 0, [J()], None], S()]],
+            "try_handler": lambda k: ["try", 0, [S()], [[0, [J()]]], None, None],
+            "try_else": lambda k: ["try", 0, [S()], [[0, [S()]]], [J()], None],
+            "try_finally": lambda k: ["try", 0, [S()], [], None, [J()]],
+            "try_body_finally": lambda k: ["try", 0, [J()], [], None, [S()]],
+            "try_handler_finally": lambda k: ["try", 0, [S()], [[0, [J()]]], None, [S()]],
+            "with_body": lambda k: ["with", 0, [J()]],
+            "match_case": lambda k: ["match", 0, [[0, [S()]], [0, [J()]]]],
+            "if_else": lambda k: ["if", 0, [S()], ["else", [J()]]],
+            "elif3": lambda k: ["if", 0, [S()], ["elif", ["if", 0, [S()], ["elif", ["if", 0, [J()], None]]]]],
+            "loop_else_in_try_finally": lambda k: ["try", 0, [[k, 0, [S()], [J()]]], [], None, [S()]],
+            "try_finally_in_loop_else": lambda k: [k, 0, [S()], [["try", 0, [J()], [], None, [S()]]]],
+        }
+        for outer in ("for", "while"):
+            for oelse in (None, "ret", "raise", "s"):
+                for iname, mk in inners.items():
+                    for ik in (("for", "while") if "loop" in iname else ("for",)):
+                        inner = mk(ik)
+                        oe = None if oelse is None else [[oelse, 0]]
+                        body = [[outer, 0, [S(), inner], oe], S(), ["ret", 0]]
+                        out.append(["def", 0, "f", json.loads(json.dumps(body))])
+                        if oelse in (None, "ret"):
+                            # one level deeper: the whole thing inside another loop that has its own terminating else
+                            deep = [["while", 0, [[outer, 0, [inner], oe], S()], [["ret", 0]]], S()]
+                            out.append(["def", 0, "f", json.loads(json.dumps(deep))])
+    return out
+
+
 def assign_ids(node, counter):
     counter[0] += 1
     node[1] = counter[0]
@@ -290,6 +329,7 @@ def run(tier, seed, replay=None):
         four = [["def", 0, "f", json.loads(json.dumps(b))] for b in enum_lists(4, False, True, 2)]
         rng.shuffle(four)
         exhaustive += four[:1500]
+    exhaustive += directed_jump_skeletons()
     for f in exhaustive:
         assign_ids(f, [0])
     funcs += exhaustive
@@ -413,7 +453,8 @@ def run(tier, seed, replay=None):
         "evaluations": len(funcs),
         "distinct_nontrivial": len(nontrivial),
         "rule": "all function skeletons with ≤%d nodes over {simple, return, raise, break, continue, if/else, while/else, with, try/finally, try/except} "
-                "(+ sampled 4-node ones in quick), random skeletons to depth 4 / 60 nodes over all constructs incl. elif chains, for, match, nested def/class, "
+                "(+ sampled 4-node ones in quick), the directed jump matrix (break/continue/return/raise in every slot of a construct nested in a loop — inner loop else, handlers, "
+                "finally, with, match, 3rd elif — x outer for/while x outer else that leaves or not, also one level deeper), random skeletons to depth 4 / 60 nodes over all constructs incl. elif chains, for, match, nested def/class, "
                 "comprehensions; each rendered with/without cosmetic noise; each run under %d scripted CPython executions; non-trivial = function with ≥1 finding" % (nmax, instr[0]["nscripts"]),
         "exhaustive": True,
         "exhaustive_note": "complete for skeletons with ≤%d nodes over the listed constructs (nesting depth ≤2); sampled beyond" % nmax,
